@@ -334,5 +334,6 @@ def r5_pruning(ctx, rep, R='C15.R5'):
     # "not inside ... an ignored directory": the ignore set that walk_with_symlinks prunes (C14.R4)
     # always contains the built-in names
     from . import c14
+    c14.walk_prunes_in_place(ctx, rep, R)
     c14.default_ignores_kept(ctx, rep, R)
     c14.symlinked_directories_followed(ctx, rep, R)
